@@ -5,6 +5,8 @@ mod congestion;
 mod incoming;
 mod reconnection;
 mod rtt;
+#[cfg(feature = "verif-hooks")]
+pub mod verif_hooks;
 
 use std::net::IpAddr;
 
